@@ -186,6 +186,10 @@ def meta_case(draw, ck):
          "gain": draw(st.sampled_from([1.0, -1.0])) * draw(st.one_of(st.sampled_from([2.0**-20, 2.0**10, 1e-6, 1e6]), st.floats(-6, 6).map(lambda e: 10.0**e))),
          "k": draw(st.one_of(st.sampled_from([0.01, 100.0, 0.5, 3.0]), st.floats(-2, 2).map(lambda e: 10.0**e))),
          "perm_seed": draw(st.integers(0, 2**16)), "refsub": draw(st.booleans())}
+    if ck.startswith("SSI") and draw(st.integers(0, 5)) == 0:
+        # a stabilisation diagram up to a high order, as used on real structures
+        c["br"] = draw(st.integers(25, 35))
+        c["ordmax"] = draw(st.integers(46, 70))
     if ck.startswith("pLSCF"):
         c["ordmax"] = draw(st.integers(2, 8))
     if ck.split("_")[0] in ("EFDD", "FSDD"):
@@ -242,6 +246,8 @@ def judge_meta(case):
     fs = S.fs
     sel = sorted(float(f) for f in S.fn)
     j.tag(ck)
+    if par["ordmax"] >= 40:
+        j.tag("high-order")
     if ms:
         datasets, refl, chans = data
         d0 = (datasets, refl)
